@@ -541,6 +541,14 @@ func taskScheduleHandler() {
 			}
 			t := e.Value.(*Task) //nolint:forcetypeassert // Can only be *Task.
 
+			// The schedule may have changed since the timer was set, as tasks
+			// leave it without notifying the scheduler: only process a task
+			// whose time has actually come.
+			if time.Until(t.executeAt) > 0 {
+				scheduleLock.Unlock()
+				continue
+			}
+
 			// process Task
 			if t.overtime {
 				// already queued and maxDelay reached
